@@ -44,6 +44,7 @@ theorem heights_strip (ops : List Op) : ∀ top, Heights top ops → Heights top
     | blockL idx b ld => simp only [List.map_cons, stripOp, Heights] at h ⊢; exact ⟨h.1, ih _ h.2⟩
     | gc g => simp only [List.map_cons, stripOp, Heights] at h ⊢; exact ih _ h
     | reset => simp only [List.map_cons, stripOp, Heights] at h ⊢; exact ih _ h
+    | jump idx t => simp only [List.map_cons, stripOp, Heights] at h ⊢; exact ih _ h
 
 /-- two states that differ only in the refcount-map caches and the bytes of the records. -/
 structure Twin (H : Bytes → Bytes) (mode : Mode) (top : Option Nat) (s s2 : St) : Prop where
@@ -118,6 +119,18 @@ theorem refine_run (H : Bytes → Bytes) (mode : Mode) (hrc : mode.rc = true) (o
         gcAt := ht.gcAt
         tags := ht.tags }
       obtain ⟨s', s2', top', hr1, hr2, htw'⟩ := ih top _ _ htw hh
+      exact ⟨s', s2', top', by simp only [runOps, stepOp, hr1], by simp only [List.map_cons, stripOp, runOps, stepOp, hr2], htw'⟩
+    | jump idx t =>
+      simp only [Heights] at hh
+      have hm : s.mode = s2.mode := by rw [ht.inv1.mode_eq, ht.inv2.mode_eq]
+      have htw : Twin H mode (some idx) (jumpSt H s idx t) (jumpSt H s2 idx t) := {
+        inv1 := jump_inv H mode hrc top s ht.inv1 idx t
+        inv2 := jump_inv H mode hrc top s2 ht.inv2 idx t
+        root := rfl
+        hist := rfl
+        gcAt := ht.gcAt
+        tags := fun k => by show ctag (sget (restoreAll H s.mode [] t) k) = ctag (sget (restoreAll H s2.mode [] t) k); rw [hm] }
+      obtain ⟨s', s2', top', hr1, hr2, htw'⟩ := ih (some idx) _ _ htw hh
       exact ⟨s', s2', top', by simp only [runOps, stepOp, hr1], by simp only [List.map_cons, stripOp, runOps, stepOp, hr2], htw'⟩
 
 end NeoModel.MptRc
